@@ -16,7 +16,7 @@ LEAN = os.path.join(VERIF, "lean")
 CACHE = os.path.join(LEAN, ".lake", "exttie")
 DEPS = ["Rngs/Model/Words.lean", "Rngs/Model/RandCore.lean", "Rngs/Model/Xoshiro.lean", "Rngs/Model/XorShift.lean", "Rngs/Model/Jitter.lean", "Rngs/Model/Hc128.lean",
         "Rngs/Model/Isaac.lean", "Rngs/Lib/XorLinear.lean", "Rngs/Lib/ExtTie.lean", "Rngs/Lib/ExtTieBlock.lean", "Rngs/Lib/ExtTieShapes.lean",
-        "Rngs/Lib/ExtTieJitter.lean"]
+        "Rngs/Lib/ExtTieJitter.lean", "Rngs/Lib/ExtTieRc.lean"]
 ALLOWED_AXIOMS = {"propext", "Classical.choice", "Quot.sound"}
 
 def dep_hash():
@@ -121,6 +121,36 @@ def run_once(repo, force, exclude):
                 err = ("definitions do not elaborate: " + str(def_errors[:2])) if def_errors else \
                       (f"axioms {ax}" if ax is not None else "no #print axioms output (file did not elaborate to the end)")
             res_th[name] = dict(ok=ok, props=props, fn=fn, statement=stmt, axioms=ax, error=err)
+        # cascades: a theorem whose own script went through but which rests on a theorem that failed (`sorryAx` among its axioms,
+        # or the failed theorem does not exist and its user could not be elaborated) is not a finding of its own: it is marked
+        # `depends_on_broken: [root causes]`, found through the theorem names its proof script mentions
+        proof_text = {}
+        for i, l in enumerate(lines, 1):
+            if i in th_line:
+                proof_text[th_line[i]] = proof_text.get(th_line[i], "") + "\n" + l.split(":= by", 1)[-1]
+        names_all = sorted(res_th, key=len, reverse=True)
+        uses = {n: {m for m in names_all if m != n and re.search(r"(?<![\w.])(?:ExtTie\.)?" + re.escape(m) + r"(?![\w])", proof_text.get(n, ""))}
+                for n in res_th}
+        memo = {}
+        def roots(n, stack=()):
+            if n in memo:
+                return memo[n]
+            out = set()
+            for m in uses.get(n, ()):
+                if m in stack or res_th[m]["ok"]:
+                    continue
+                out |= roots(m, stack + (n,)) if is_dependent(m) else {m}
+            memo[n] = out
+            return out
+        def is_dependent(n):
+            v = res_th[n]
+            e = v["error"] or ""
+            return (not v["ok"]) and (e.startswith("axioms ") or "unknown constant" in e or "Unknown constant" in e or "unknown identifier" in e.lower())
+        for n, v in res_th.items():
+            if is_dependent(n):
+                r = roots(n)
+                if r:
+                    v["depends_on_broken"] = sorted(r)
         res = dict(key=key, theorems=res_th, report=report, def_errors=def_errors, def_errors_at=def_errors_at, forbidden=forbidden,
                    lean_rc=p.returncode, build_rc=b.returncode, cached=False, file=src,
                    lean_seconds=round(time.time() - t0, 1))
@@ -138,6 +168,13 @@ if __name__ == "__main__":
     sk = {u: v.get("skipped") or v.get("error") for u, v in r["report"].items() if v.get("skipped") or v.get("error")}
     print(f"exttie: {len(r['theorems']) - len(bad)}/{len(r['theorems'])} correspondence theorems hold "
           f"(key {r['key']}, {'cached' if r['cached'] else 'checked'} in {r['seconds']}s); untranslated: {json.dumps(sk)[:600]}")
-    for k, v in list(bad.items())[:8]:
+    for u, v in r["report"].items():
+        for fn, msg in ((v.get("unmodelled") or {}) if isinstance(v, dict) else {}).items():
+            print(f"  UNMODELLED {u}.{fn} :: {msg}")
+    dep = {k: r["theorems"][k].get("depends_on_broken") for k in bad if r["theorems"][k].get("depends_on_broken")}
+    for k, v in [(k, v) for k, v in bad.items() if k not in dep][:8]:
         print("  BROKEN", k, "::", (v or "")[:300].replace("\n", " "))
-    sys.exit(1 if bad else 0)
+    for k, v in list(dep.items())[:12]:
+        print("  (depends on a broken theorem)", k, "<-", ", ".join(v))
+    unmod = any(isinstance(v, dict) and v.get("unmodelled") for v in r["report"].values())
+    sys.exit(1 if bad or unmod else 0)
